@@ -28,7 +28,7 @@ EXPLANATION = (
     "time; verdict equality on data."
 )
 LEVEL_RULE = "one obligation per twin pair / config option / dispatch key / field attribute / write site"
-FLOORS = {"R1": 4, "R2": 12, "R3": 16, "R4": 14, "R5": 1, "R6": 1, "R7": 1, "R8": 1, "R9": 1, "R10": 2}
+FLOORS = {"R1": 4, "R2": 12, "R3": 16, "R4": 14, "R5": 1, "R6": 1, "R7": 1, "R8": 1, "R9": 1, "R10": 2, "R11": 2, "R12": 3}
 
 MODEL = "pandera/api/dataframe/model.py::DataFrameModel"
 MC = "pandera/api/dataframe/model_components.py"
@@ -460,6 +460,64 @@ def r10_field_check_options(ctx):
                "DataFrameSchema users write (e.g. nulls ignored although ignore_na=False was requested)", f.loc(c))
 
 
+def r11_config_merge_direction(ctx):
+    """Config options and extras are collected from the root model down to the class: what a more derived model declares
+    overrides what has been accumulated (`acc.update(new)` / `acc = {**acc, **new}`).  The transposed spelling
+    `{**new, **acc}` lets the most basic model win - a child that re-declares a dataframe-level check keeps its parent's."""
+    model = ctx.ix.cls(MODEL)
+    f = model.method("_collect_config_and_extras")
+    if f is None:
+        raise AnalysisError("_collect_config_and_extras missing")
+    ctx.touched(f)
+    n = 0
+    for lp in [x for x in walk_no_nested(f.node) if isinstance(x, ast.For)]:
+        for st in ast.walk(lp):
+            if isinstance(st, ast.Assign) and len(st.targets) == 1 and isinstance(st.targets[0], ast.Name) and isinstance(st.value, ast.Dict) \
+                    and st.value.keys and all(k is None for k in st.value.keys):
+                acc = st.targets[0].id
+                parts = [txt(v) for v in st.value.values]
+                if acc in parts:
+                    n += 1
+                    ok = parts[0] == acc
+                    ctx.ob("R11", f, f"`{acc}` is overridden by the more derived model", ok,
+                           f"{{**{acc}, **new}}" if ok else f"`{txt(st)}` keeps the accumulated (less derived) values: the base model's declaration wins over the subclass's", f.loc(st))
+            if isinstance(st, ast.Expr) and isinstance(st.value, ast.Call) and callee_last(st.value) == "update" and isinstance(st.value.func, ast.Attribute):
+                n += 1
+                recv = txt(st.value.func.value)
+                loop_locals = {t.id for x in ast.walk(lp) if isinstance(x, ast.Assign) for tt in x.targets for t in ast.walk(tt) if isinstance(t, ast.Name)}
+                ok = recv not in loop_locals
+                ctx.ob("R11", f, f"`{recv}` is overridden by the more derived model", ok,
+                       f"{recv}.update(new)" if ok else f"`{txt(st)}` updates the per-model value with the accumulator: precedence is reversed", f.loc(st))
+    if n < 2:
+        raise AnalysisError(f"_collect_config_and_extras: merge statements found: {n}")
+
+
+def r12_checks_keyed_like_fields(ctx):
+    """`__checks__` / `__parsers__` are keyed like `__fields__` (by the field's public name, i.e. its alias).  The column
+    builders therefore look the custom checks of a field up with the very key of the fields mapping they iterate - with
+    `field.original_name` an aliased field silently loses its @check methods."""
+    n = 0
+    for mp in ("pandera/api/pandas/model.py", "pandera/api/polars/model.py"):
+        m = ctx.ix.module(mp)
+        for f in m.all_functions:
+            if not f.name.startswith("_build_columns"):
+                continue
+            for lp in [x for x in walk_no_nested(f.node) if isinstance(x, ast.For)]:
+                it = lp.iter
+                keyvar = None
+                if isinstance(it, ast.Call) and callee_last(it) == "items" and isinstance(lp.target, ast.Tuple) and isinstance(lp.target.elts[0], ast.Name):
+                    keyvar = lp.target.elts[0].id
+                for c in [x for x in ast.walk(lp) if isinstance(x, ast.Call) and callee_last(x) == "get" and isinstance(x.func, ast.Attribute)
+                          and txt(x.func.value) in ("checks", "parsers") and x.args]:
+                    n += 1
+                    ok = keyvar is not None and isinstance(c.args[0], ast.Name) and c.args[0].id == keyvar
+                    ctx.ob("R12", f, f"{f.short}: `{txt(c)[:40]}` uses the key of the fields mapping", ok,
+                           f"looked up by `{keyvar}`" if ok else
+                           f"looked up by `{txt(c.args[0])}`, not by the key the fields are stored under (the alias): a field with alias= loses its @check / @parser methods", f.loc(c))
+    if n < 3:
+        raise AnalysisError(f"model column builders: check / parser look-ups found: {n}")
+
+
 def run(ctx):
     from ..defassign import check_modules
     check_modules(ctx, "R8", ('pandera/api/dataframe/model.py', 'pandera/api/dataframe/model_components.py', 'pandera/api/pandas/model.py', 'pandera/api/polars/model.py', 'pandera/api/base/model.py', 'pandera/api/base/model_components.py'), "escapes to_schema()/validate of the model")
@@ -467,6 +525,8 @@ def run(ctx):
     r7_own_namespace(ctx)
     r9_alias_by_none_only(ctx)
     r10_field_check_options(ctx)
+    r11_config_merge_direction(ctx)
+    r12_checks_keyed_like_fields(ctx)
     r1_twins(ctx)
     r2_config(ctx)
     r3_dispatch(ctx)
